@@ -1169,12 +1169,19 @@ def run_loop(spec):
             save_tuner=False, start_jobs_without_delay=flags.get("swd", True),
         )
         o_stopc = tuner._stop_condition
+        # the criterion the user gave, without its wall-clock part (which callbacks may move onto another clock)
+        user_nowall = make_criterion({k_: v_ for k_, v_ in spec["criterion"].items() if k_ != "max_wallclock_time"})
+        rec.crit_user = []
 
         def stop_condition():
             v = o_stopc()
             rec.crit_trace.append((len(dlg.entries), bool(v)))
             ts_now = tuner.tuning_status
             if ts_now is not None:
+                try:
+                    rec.crit_user.append((len(dlg.entries), bool(v), bool(user_nowall(ts_now))))
+                except Exception:  # noqa
+                    pass
                 rec.crit_status.append((len(dlg.entries), bool(v), dict(ts_now.last_trial_status_seen),
                                         int(ts_now.overall_metric_statistics.count)))
             return v
@@ -1473,6 +1480,30 @@ def gen_criterion(rng, sim, style):
     return c
 
 
+def gen_sim_combined(rng, tier):
+    """simulator runs whose criterion combines a (generous) wall-clock budget with one field of every other kind; the
+    other field is what ends the run"""
+    while True:
+        spec = gen_spec(rng, tier)
+        if spec["backend"] == "sim":
+            break
+    other = rng.choice(["max_num_trials_finished", "max_num_trials_finished", "max_num_trials_completed", "max_num_trials_started",
+                        "max_num_evaluations", "max_metric_value", "max_metric_value", "min_metric_value", "min_metric_value"])
+    crit = {"max_wallclock_time": frac_str(rng.randint(60, 120) / 2.0)}
+    if other == "max_metric_value":
+        crit[other] = {rng.choice([METRIC, METRIC2]): frac_str(rng.randint(8, 14) / 4.0)}
+    elif other == "min_metric_value":
+        crit[other] = {rng.choice([METRIC, METRIC2]): frac_str(rng.randint(2, 8) / 4.0)}
+    else:
+        crit[other] = rng.randint(1, 4)
+    crit["max_num_trials_started"] = crit.get("max_num_trials_started", 12)  # backstop
+    spec["criterion"] = crit
+    spec["inject"] = None
+    if other in ("max_num_trials_finished", "max_num_trials_completed"):
+        spec["sim"]["p_failk"] = 0.3   # finished and completed counts differ
+    return spec
+
+
 def gen_spec(rng, tier):
     sim = rng.random() < 0.22
     sp = gen_scheduler(rng, sim)
@@ -1500,6 +1531,14 @@ def gen_spec(rng, tier):
                        "d_start": rng.randint(0, 2), "d_stop": rng.randint(0, 2), "sleep": rng.randint(1, 8),
                        "bb_seed": rng.randint(0, 1), "support_checkpointing": rng.random() < 0.8,
                        "p_fail0": rng.choice([0.0, 0.0, 0.15]), "p_failk": rng.choice([0.0, 0.0, 0.15])}
+        if rng.random() < 0.3:
+            # the simulator callback rewrites a wall-clock criterion onto simulated time: the other fields of a combined
+            # criterion must survive the rewrite (a generous wall-clock budget, a count-based budget that binds first)
+            spec["criterion"] = {"max_wallclock_time": frac_str(rng.randint(40, 80) / 2.0),
+                                 rng.choice(["max_num_trials_finished", "max_num_trials_completed", "max_num_trials_started",
+                                             "max_num_evaluations"]): rng.randint(1, 5)}
+            if rng.random() < 0.3:
+                spec["criterion"]["max_metric_value"] = {METRIC: frac_str(3.5)}
         if rng.random() < 0.3:
             # long simulated runs: several workers, a table large enough for dozens of trials, many events of different
             # trials interleaved in the simulator's queue when one of them is stopped or paused
@@ -2074,6 +2113,14 @@ def monitor_c12(t):
     count_fields = (("max_num_trials_completed", "completed"), ("max_num_trials_finished", "finished"))
     # (b1) up to and including the evaluation of `_stop_condition()` that is the first to return True (`*_first`): the count
     #      is at most m + n_workers; the number of reported results at most m + what the last poll delivered
+    # whatever a callback does to `tuner.stop_criterion`, the fields of the user's criterion other than wall-clock time
+    # end the run: when they hold, the loop's stopping condition is true
+    for pos, v, u in getattr(t["recorder"], "crit_user", []):
+        if u and not v:
+            out.append(F("c12:criterion-holds-loop-continues",
+                         f"the stopping criterion {t['spec']['criterion']} holds on the tuning status (fields other than wall-clock time), "
+                         f"the loop's stopping condition is false", {"call": pos}))
+            break
     for pos, v, last, nres in t["recorder"].crit_status:
         cnt = counts_of(last)
         for key, fld in count_fields:
